@@ -109,6 +109,8 @@ def _base(rng, family, data, splits=None, extra=None):
     }
     if rng.random() < 0.15:
         case["config"]["server_names"] = ["host1.example", "ws.example"]
+    if rng.random() < 0.25:
+        case["client"][0] = case["client"][0] + [[rng.choice([0, 1, 2, 3, 5]) for _ in range(5)]]  # pieces a few scheduler turns apart
     if extra:
         case.update(extra)
     return case
@@ -341,6 +343,8 @@ def _case_grammar(rng, n, kind=None):
     config = {"keep_alive_timeout": 5}
     if kind == "authority_non_utf8" or rng.random() < 0.2:
         config["server_names"] = ["h.example"]
+    if rng.random() < 0.3 and kind not in ("late_data_flood", "frames_during_blocked_end_stream"):
+        steps = G.stagger_client(rng, steps)
     apps = {"default": OK_APP, "websocket": WS_APP, "by_tag": by_tag,
             "by_path": {"/early": [["respond", 200, [], b"early"]],
                         "/slowend": [["recv_until_end"], ["try_send", {"type": "http.response.start", "status": 200, "headers": []}], ["wait", "go"],
@@ -387,14 +391,25 @@ def gen(rng, tier):
             yield _base(rng, "h2.mutate", data, extra={"conn": {"tls": True, "alpn": "h2"}} if rng.random() < 0.5 else None)
         elif r < 0.53:
             nm = rng.choice([b"Sec-WebSocket-Extensions", b"Sec-WebSocket-Protocol", b"Connection", b"Upgrade", b"Sec-WebSocket-Version", b"Sec-WebSocket-Key"])
-            val = rng.choice([b"caf\xc3\xa9", b"\xff\xfe", b"a, \xe2\x82\xac", b"permessage-deflate; \xd0", b"", b",,,", b"x" * 300])
+            val = rng.choice([b"caf\xc3\xa9", b"\xff\xfe", b"a, \xe2\x82\xac", b"permessage-deflate; \xd0", b"", b",,,", b"x" * 300,
+                              b"permessage-deflate; client_max_window_bits=abc", b"permessage-deflate; server_max_window_bits=99",
+                              b"permessage-deflate; client_max_window_bits=7", b"permessage-deflate; server_max_window_bits=-1",
+                              b"permessage-deflate; client_max_window_bits=15; client_max_window_bits=15", b"permessage-deflate; foo=bar",
+                              b"permessage-deflate; server_no_context_takeover=1", b"permessage-deflate, permessage-deflate; client_max_window_bits=x"])
+            if val.startswith(b"permessage") :
+                nm = b"Sec-WebSocket-Extensions"
             data = ws.handshake(path=b"/t%d" % i, extra=[(nm, val)]) + ws.message_frames(ws.OP_TEXT, b"hi")
-            yield _base(rng, "ws.hdr", data)
+            c = _base(rng, "ws.hdr", data)
+            # an application that does not shrug off an error raised by its own accept: what the client's header did to it becomes visible
+            c["apps"] = dict(c["apps"], websocket=[["recv"], ["send", {"type": "websocket.accept"}], ["ws_echo"]])
+            yield c
         elif r < 0.535:
             # a handshake the application refuses with a response of its own (and then keeps waiting for its disconnect), followed by
             # WebSocket frames from a client that has not read the refusal yet
-            how = rng.choice(["close", "http_full", "http_partial"])
-            rej = {"close": [["recv"], ["try_send", {"type": "websocket.close"}], ["recv_until_disconnect"]],
+            how = rng.choice(["close", "http_full", "http_partial", "accept_close", "accept_close"])
+            rej = {"accept_close": [["recv"], ["try_send", {"type": "websocket.accept"}], ["try_send", {"type": "websocket.close", "code": 1000}],
+                                    ["recv_until_disconnect"]],
+                   "close": [["recv"], ["try_send", {"type": "websocket.close"}], ["recv_until_disconnect"]],
                    "http_full": [["recv"], ["try_send", {"type": "websocket.http.response.start", "status": 401, "headers": [(b"x-why", b"auth")]}],
                                  ["try_send", {"type": "websocket.http.response.body", "body": b"no"}], ["recv_until_disconnect"]],
                    "http_partial": [["recv"], ["try_send", {"type": "websocket.http.response.start", "status": 401, "headers": []}],
@@ -403,6 +418,11 @@ def gen(rng, tier):
             c = _base(rng, "ws.rejected-then-data", ws.handshake(path=b"/t%d" % i))
             c["apps"] = {"default": OK_APP, "websocket": rej}
             c["client"] = [["feed", ws.handshake(path=b"/t%d" % i)], ["settle"], ["feed", frames], ["settle"], ["feed", frames], ["settle"], ["eof"]]
+            if how == "accept_close":
+                # the application closes the session; the client replies with its own Close - and then keeps talking
+                tail = rng.choice([ws.frame(ws.OP_PING, b"late"), frames, bytes(rng.randrange(256) for _ in range(20)), ws.close_frame(1000)])
+                c["client"] = [["feed", ws.handshake(path=b"/t%d" % i)], ["settle"], ["feed", ws.close_frame(1000)], ["settle"], ["feed", tail], ["settle"],
+                               ["feed", tail], ["settle"], ["eof"]]
             c["truth"] = {"data": ws.handshake(path=b"/t%d" % i) + frames, "how": how}
             c["config"].pop("server_names", None)
             yield c
@@ -658,6 +678,16 @@ def check(case, obs, tally):
             out.append({"clause": "crash", "sig": "C04.log-format/%s" % short.split(".")[0], "detail": text[:500]})
     if obs.handler == "exception":
         return out
+    if fam in ("h1.mutate", "random", "ws.mutate", "ws.hdr", "h1.body-framing", "ws.rejected-then-data", "h2c.upgrade"):
+        # the applications of these families never fail by themselves: a 5xx status is the server owning up to an internal error
+        import re as _re5
+
+        m5 = _re5.search(rb"HTTP/1\.[01] (500)", bytes(obs.outbytes))  # 501 / 505 are protocol answers h11 itself hints at
+        if m5:
+            tally.clause("no-5xx")
+            out.append({"clause": "crash", "sig": "C04.internal-error-status/%s/%s" % (fam.split(".")[0], m5.group(1).decode()),
+                        "detail": "client input was answered %s (an internal error) although the application does not fail on its own; error log: %r" % (
+                            m5.group(1).decode(), [r["text"][:80] for r in obs.errors][:2])})
     if fam in ("h1.mutate", "random", "ws.mutate", "ws.hdr", "h1.body-framing"):
         hint = _shadow_h11(case, obs, body_stage="server_names" not in (case.get("config") or {}))
         if hint is not None:
